@@ -61,7 +61,7 @@ Lemma find_idx_step rl f root x rest par c items fstr si z i child :
   norm_idx (length items) z = Some i -> nth_error items i = Some child ->
   find true rl (S f) root (x :: rest) par (Lst c items) fstr =
   match rest with
-  | [] => Ok (root, false, mkF par (Lst c items) (Some (br (dec_of_Z z))) (Some child) fstr None)
+  | [] => Ok (root, false, mkF par (Lst c items) (Some (br (dec_of_Z z))) (Some child) (fstr ++ br (dec_of_Z z)) None)
   | _ => find true rl f root rest (child_idx par i) child (fstr ++ br (dec_of_Z z))
   end.
 Proof.
